@@ -44,6 +44,224 @@ def plan_batches(ty, w, s, vals, tier, rng):
     return pairs
 
 
+INT_LIMITS = {"TINYINT": 8, "SMALLINT": 16, "INT": 32, "BIGINT": 64}
+
+
+def operand_value(t, cls):
+    """instantiate a boundary class (GenDecArith.tla) for an operand type -> (unscaled integer, scale)"""
+    if t["k"] == "int":
+        w = INT_LIMITS[t["ty"]]
+        hi, lo = (1 << (w - 1)) - 1, -(1 << (w - 1))
+        digits = len(str(hi))
+        v = {"max": hi, "min": lo, "half": hi // 2 + 1, "unit": 1, "one": 1, "zero": 0, "negunit": -1, "maxm1": hi - 1,
+             "p10": 10 ** (digits - 1), "negp10": -(10 ** (digits - 1))}[cls]
+        return v, 0
+    p_, s_ = t["p"], t["s"]
+    v = {"max": 10 ** p_ - 1, "min": -(10 ** p_ - 1), "half": 5 * 10 ** (p_ - 1), "unit": 1, "one": min(10 ** s_, 10 ** p_ - 1), "zero": 0,
+         "negunit": -1, "maxm1": 10 ** p_ - 2, "p10": 10 ** (p_ - 1), "negp10": -(10 ** (p_ - 1))}[cls]
+    return v, s_
+
+
+def round_value(t, cls, d):
+    """round(x, d) operand classes: ties at the first dropped digit and their neighbours"""
+    p_, s_ = t["p"], t["s"]
+    dk = min(d, s_)
+    drop = s_ - dk                      # number of dropped digits
+    if cls in ("max", "min", "zero", "unit", "negunit"):
+        return operand_value(t, cls)[0]
+    if drop == 0:
+        base = 15                       # nothing is dropped: any value
+    else:
+        base = 10 ** drop + 5 * 10 ** (drop - 1)         # 1.5 units of the kept digit
+    v = {"tiepos": base, "tieneg": -base, "belowtie": base - 1, "abovetie": base + 1, "negbelowtie": -(base - 1)}[cls]
+    lim = 10 ** p_ - 1
+    return max(-lim, min(lim, v))
+
+
+def sql_type(t):
+    return t["ty"] if t["k"] == "int" else f"DECIMAL({t['p']},{t['s']})"
+
+
+def dec_text(u, s_):
+    neg = u < 0
+    d = str(abs(u)).rjust(s_ + 1, "0")
+    txt = d if s_ == 0 else d[:-s_] + "." + d[-s_:]
+    return ("-" if neg else "") + txt
+
+
+def dec_lit(u, s_, t):
+    return f"CAST('{dec_text(u, s_)}' AS {sql_type(t)})"
+
+
+def parse_announced(tname):
+    m = vlib.re.match(r"^Decimal(64|128)\((\d+),(-?\d+)\)$", tname or "")
+    return (int(m.group(2)), int(m.group(3))) if m else None
+
+
+def operand_obs(v):
+    """engine value of an operand column -> (unscaled, scale) as the engine holds it"""
+    if isinstance(v, dict) and "dec" in v:
+        return int(v["dec"][0]), int(v["dec"][2])
+    if isinstance(v, dict) and "big" in v:
+        return int(v["big"]), 0
+    if isinstance(v, int) and not isinstance(v, bool):
+        return v, 0
+    return None
+
+
+def decimal_part(rep, tier, rng):
+    """decimal arithmetic (DecArith.tla): TLC-generated (type pair, operator, boundary classes) cases"""
+    k = 40 if tier == "quick" else 1
+    g = vlib.tlc("GenDecArith", f"INIT Init\nNEXT Next\nINVARIANT Emit\nCHECK_DEADLOCK FALSE\nCONSTANTS SampleK = {k}\n", "C12-gendec",
+                 workers=6, timeout=1200, heap="6g")
+    if g.error:
+        raise vlib.ToolError(f"GenDecArith: {g.error}")
+    rep.add_tlc(g, f"GEN decimal operand type pairs x operators x boundary classes (1/{k} sample)")
+    gen = [c for c in g.printed if isinstance(c, dict) and "kind" in c]
+    SYM = {"add": "+", "sub": "-", "mul": "*"}
+    per = 30
+    cases, plans = [], []
+    for i in range(0, len(gen), per):
+        chunk = gen[i:i + per]
+        steps, plan = [], []
+        for ci, c in enumerate(chunk):
+            if c["kind"] == "round":
+                (ua, sa), (ub, sb) = (round_value(c["a"], c["ca"], c["n"]), c["a"]["s"]), (0, c["a"]["s"])
+            else:
+                ua, sa = operand_value(c["a"], c["ca"])
+                ub, sb = operand_value(c["b"], c["cb"])
+            la, lb = dec_lit(ua, sa, c["a"]), dec_lit(ub, sb, c["b"])
+            if c["kind"] == "sum":
+                n = c["n"]
+                tn = f"d{ci}"
+                steps.append({"sql": f"CREATE TEMP TABLE {tn} (a {sql_type(c['a'])})"})
+                steps.append({"sql": f"INSERT INTO {tn} VALUES " + ", ".join([f"({la})"] * (n - 1) + [f"({lb})"])})
+                steps.append({"sql": f"DESCRIBE SELECT sum(a) FROM {tn}"})
+                steps.append({"sql": f"SELECT sum(a) FROM {tn}"})
+                plan.append((c, len(steps) - 2, len(steps) - 1, [ua] * (n - 1) + [ub], sa))
+                continue
+            if c["kind"] == "round":
+                e = f"round(a, {c['n']})" if c["n"] or (i + ci) % 3 else "round(a)"
+            elif c["kind"] == "un":
+                e = "-a" if c["op"] == "neg" else "abs(a)"
+            else:
+                e = f"a {SYM[c['op']]} b"
+            # alternately over a VALUES relation (runtime path) and as a constant expression (folded at plan time)
+            src = f"(VALUES ({la}, {lb})) v(a, b)" if (i + ci) % 2 == 0 else f"(SELECT {la} AS a, {lb} AS b) v"
+            steps.append({"sql": f"DESCRIBE SELECT {e} FROM {src}"})
+            steps.append({"sql": f"SELECT a, b, {e} FROM {src}"})
+            plan.append((c, len(steps) - 2, len(steps) - 1, None, None))
+        cases.append({"id": len(cases), "rt": {"kind": "threaded", "threads": 2}, "steps": steps, "timeout": 120})
+        plans.append(plan)
+    res = vlib.Driver(nworkers=14, case_timeout=120).run(cases)
+    lines, info = [], {}
+    skipped = {"bind_rejected": 0, "non_decimal_result": 0, "operand_cast_failed": 0}
+    for c, r, plan in zip(cases, res, plans):
+        if r is None or "steps" not in r:
+            # a crash inside a bulk case: rerun its statements individually to attribute it
+            singles = []
+            for (gc, di, qi, vs, ss) in plan:
+                pre = c["steps"][qi - 3:qi - 1] if gc["kind"] == "sum" else []
+                singles.append({"id": len(singles), "rt": c["rt"], "steps": pre + [c["steps"][di], c["steps"][qi]], "timeout": 30})
+            rr = vlib.Driver(nworkers=14, case_timeout=30).run(singles)
+            stepres = {}
+            for (gc, di, qi, vs, ss), x in zip(plan, rr):
+                if x and "steps" in x:
+                    stepres[di], stepres[qi] = x["steps"][-2], x["steps"][-1]
+                else:
+                    stepres[di] = [{"outcome": "unknown"}]
+                    stepres[qi] = [{"outcome": "abort" if (x or {}).get("abort") else "timeout",
+                                    "msg": " || ".join(q for q in (x or {}).get("panic", []) if q)[:200]}]
+        else:
+            stepres = dict(enumerate(r["steps"]))
+        for (gc, di, qi, vs, ss) in plan:
+            d, o = stepres[di][-1], stepres[qi][-1]
+            ann = parse_announced(d["rows"][0][1]) if d.get("outcome") == "rows" and d.get("rows") else None
+            if ann is None:
+                if d.get("outcome") == "rows":
+                    skipped["non_decimal_result"] += 1
+                    continue
+                if o.get("outcome") in ("rows", "error"):
+                    skipped["bind_rejected"] += 1
+                    continue
+                ann = (38, 0)   # a crash without an announced type: still an inadmissible outcome
+            rec = {"id": len(lines), "kind": gc["kind"], "op": gc["op"], "u1": enc(0), "s1": 0, "u2": enc(0), "s2": 0, "rp": ann[0], "rs": ann[1],
+                   "vs": [], "out": {"k": "none", "v": enc(0), "p": 0, "s": 0}}
+            if gc["kind"] == "sum":
+                rec["vs"], rec["s1"] = [enc(v) for v in vs], ss
+                val = o["rows"][0][0] if o.get("outcome") == "rows" and o["rows"] else None
+            else:
+                if gc["kind"] == "round":
+                    (ua, sa), (ub, sb) = (round_value(gc["a"], gc["ca"], gc["n"]), gc["a"]["s"]), (0, gc["a"]["s"])
+                else:
+                    ua, sa = operand_value(gc["a"], gc["ca"])
+                    ub, sb = operand_value(gc["b"], gc["cb"])
+                val = None
+                if o.get("outcome") == "rows" and o["rows"]:
+                    row = o["rows"][0]
+                    oa, ob = operand_obs(row[0]), operand_obs(row[1])
+                    if oa is None or ob is None:
+                        skipped["operand_cast_failed"] += 1
+                        continue
+                    (ua, sa), (ub, sb) = oa, ob     # what the engine holds as operands
+                    val = row[2]
+                rec.update(u1=enc(ua), s1=sa, u2=enc(ub), s2=sb)
+                if gc["kind"] == "round":
+                    # s2 carries the digits argument; u2 a witness quotient that DecArith.tla verifies (RoundOK), never trusts
+                    dk = min(gc["n"], sa)
+                    w = 0
+                    if isinstance(val, dict) and "dec" in val and int(val["dec"][2]) >= dk:
+                        w = int(val["dec"][0]) // 10 ** (int(val["dec"][2]) - dk) if int(val["dec"][0]) >= 0 else -((-int(val["dec"][0])) // 10 ** (int(val["dec"][2]) - dk))
+                    rec.update(s2=gc["n"], u2=enc(w))
+            if o.get("outcome") == "rows":
+                if isinstance(val, dict) and "dec" in val:
+                    rec["out"] = {"k": "val", "v": enc(int(val["dec"][0])), "p": int(val["dec"][1]), "s": int(val["dec"][2])}
+                elif val is None:
+                    rec["out"]["k"] = "null"
+                else:
+                    rec["out"]["k"] = "non-decimal"
+            elif o.get("outcome") == "error":
+                rec["out"]["k"] = "err"
+            else:
+                rec["out"]["k"] = o.get("outcome") or "missing"
+            lines.append(rec)
+            info[rec["id"]] = {"case": gc, "sql": c["steps"][qi]["sql"], "announced": ann, "obs": {k2: v2 for k2, v2 in o.items() if k2 != "rows"},
+                               "value": val}
+    wd = vlib.workdir("C12-dec")
+    chunks = [lines[i:i + 12000] for i in range(0, len(lines), 12000)]
+    mism = []
+
+    def one(ci):
+        path = os.path.join(wd, f"trace{ci}.ndjson")
+        vlib.write_ndjson(path, chunks[ci])
+        return ci, vlib.tlc("TraceDecArith", "SPECIFICATION TSpec\nPOSTCONDITION Accepted\nCHECK_DEADLOCK FALSE\n", f"C12-dectv{ci}",
+                            env={"TRACE": path}, workers=1, timeout=1700, deque=True, heap="3g")
+    with concurrent.futures.ThreadPoolExecutor(max_workers=6) as ex:
+        for ci, r in ex.map(one, range(len(chunks))):
+            if r.error or not r.ok:
+                rep.tool_error(f"TraceDecArith chunk {ci}: {r.error or r.violated}: {r.out[-800:]}")
+                continue
+            rep.add_tlc(r, f"TV decimal arithmetic#{ci}", trace_lines=len(chunks[ci]))
+            mism += [p for p in r.printed if isinstance(p, dict) and "mismatch" in p]
+    for m in mism:
+        i = info[m["mismatch"]]
+        gc = i["case"]
+        wide = lambda t: "int" if t["k"] == "int" else ("d128" if t["p"] > 18 else "d64")
+        i["operands"] = wide(gc["a"]) + "/" + wide(gc["b"])
+        msg = vlib.re.sub(r"\d+", "#", i["obs"].get("msg", "") or "")
+        msg = vlib.re.sub(r"/rustc/[0-9a-f#]+/", "/rustc/", msg).split(" || ")[0][:110]
+        sig = {"family": "dec_arith", "why": m["why"], "observed": i["obs"].get("outcome"), "msg": msg}
+        if m["why"] != "outcome":
+            sig["op"] = gc["op"]
+        rep.mismatch(sig, i)
+    rep.cov["decimal_rule"] = (f"GenDecArith.tla: operand type pairs from 11 DECIMAL(p,s) types (Decimal64 and Decimal128, scales 0..p-1) and 4 integer types "
+                               f"x {{+,-,*}} x 10x10 boundary classes, unary minus / abs, round(x[, d]) at ties and their neighbours, SUM over 1-11 rows (1/{k} sample); DecArith.tla judges on BigInt terms: "
+                               "exact unscaled result at the announced scale, |u| < 10^p of the announced precision, an error exactly when the announced type "
+                               "cannot hold the exact result")
+    rep.cov["decimal_skipped"] = skipped
+    return len(lines)
+
+
 def run(tier):
     rep = vlib.Report("C12", tier)
     rng = random.Random(vlib.seed())
@@ -103,7 +321,8 @@ def run(tier):
                                     {"sql": "SELECT a, b, -a FROM args"}]})
             meta[cid] = ("single", ty, w, s, "neg", [(lo, 0)])
         # SUM: exact in the announced type or an error
-        for name, col in (("sum_small", [1, 2, 3, -4 if s else 4]), ("sum_overflow", [hi, 1]), ("sum_cancel", [hi, lo, hi] if s else [hi, 0, 1])):
+        for name, col in (("sum_small", [1, 2, 3, -4 if s else 4]), ("sum_overflow", [hi, 1]), ("sum_cancel", [hi, lo, hi] if s else [hi, 0, 1]),
+                          ("sum_zeros", [0, 0, 0]), ("sum_cancel_to_zero", [lo + 1, hi, 0] if s else [0])):
             rows = ", ".join(f"({lit(a, ty)}, {lit(0, ty)})" for a in col)
             cid = len(cases)
             cases.append({"id": cid, "rt": {"kind": "threaded", "threads": 2}, "timeout": 30,
@@ -187,7 +406,7 @@ def run(tier):
                 add_line({"kind": "divrem", "a": enc(a), "b": enc(b), "outq": outrec(o, base, row), "outr": outrec(o, base + 1, row)}, what, a, b, o)
             else:
                 add_line({"kind": "simple", "op": op, "a": enc(a), "b": enc(b), "out": outrec(o, base, row)}, what, a, b, o)
-    rep.cov["evaluations"] = len(lines)
+    rep.cov["evaluations"] = len(lines) + decimal_part(rep, tier, rng)
     wd = vlib.workdir("C12-tv")
     chunks = [lines[i:i + 12000] for i in range(0, len(lines), 12000)]
     mism = []
@@ -231,7 +450,7 @@ def run(tier):
                        "was returned; distinct by (type, op, a, b)")
     rep.cov["exhaustive"] = tier == "thorough"
     rep.assumptions += ["the driver's batching plan (which pairs share a statement) is not part of the judgement",
-                        "decimal arithmetic: see evidence families (growth item)"]
+                        "decimal division (evaluated in floating point by the engine), trunc / ceil / floor (float only in the engine) are not judged"]
     return rep.finish()
 
 
